@@ -234,7 +234,47 @@ func vC13GenSession(r *vRng, thorough bool) vSx {
 	} else {
 		ops = append(ops, vL(vZ(8), vI(CloseMessage), vB(FormatCloseMessage(CloseNormalClosure, ""))))
 	}
-	return vL(vZ(0), vI(srv), vI(B), vI(comp), vLs(pms), vLs(ops), vL(), vBool(wellformed))
+	// transport segmentation on both sides, the server speaking first, greetings
+	segC := r.pickInt(1, 1, 1, 0, 2, 3, 3)
+	segS := r.pickInt(0, 1, 2, 3, 3)
+	if big > 0 {
+		if segC == 2 {
+			segC = 1
+		}
+		if segS == 2 {
+			segS = 3
+		}
+	}
+	early := 0
+	var greet []vSx
+	if srv == 1 && r.chance(2, 3) {
+		// a prefix of the operations carrying at most ~30000 bytes
+		sz := 0
+		for early < len(ops)-1 {
+			o := ops[early]
+			n := 0
+			if len(o.l) > 2 && (o.l[0].int() == 5) {
+				n = len(vC13Data(o.l[2]))
+			} else if len(o.l) > 1 && o.l[0].int() >= 1 && o.l[0].int() <= 3 {
+				n = len(vC13Data(o.l[1]))
+			}
+			if sz+n > 30000 {
+				break
+			}
+			sz += n
+			early++
+			if r.chance(1, 4) {
+				break
+			}
+		}
+	}
+	if srv == 0 && r.chance(1, 2) {
+		for j := r.rng(1, 3); j > 0; j-- {
+			greet = append(greet, vC13MkData(r, r.pickInt(0, 5, 125, 126, 1000, 3000)))
+		}
+	}
+	cfg := vL(vBool(wellformed), vI(segC), vI(segS), vI(early), vLs(greet))
+	return vL(vZ(0), vI(srv), vI(B), vI(comp), vLs(pms), vLs(ops), vL(), cfg)
 }
 
 // ---------------------------------------------------------------- family 1: maskBytes
